@@ -89,6 +89,14 @@ type Spec struct {
 	// PhysPaths: the pipestance lives below a symbolic link and stage code
 	// reports the fully resolved names of the files it wrote.
 	PhysPaths bool `json:"phys_paths"`
+	DirSlash  bool `json:"dir_slash"` // directory outputs are reported as ".../name/"
+	// RelFiles: top-level output name -> path relative to the working directory mrp is started
+	// in; the file is created there (it is named by an invocation argument that the pipeline
+	// passes through) and must be available under outs/<name> afterwards
+	RelFiles map[string]string `json:"rel_files"`
+	// Layout "subdir": the stages live in <MROPATH>/pipes/_stages.mro and are included from
+	// <MROPATH>/pipes/main.mro by their sibling spelling ("_stages.mro")
+	Layout string `json:"layout"`
 	// MaxJobs > 0: cluster mode with a real RemoteJobManager and this --maxjobs;
 	// the driver plays the cluster (submitted jobs survive mrp).
 	MaxJobs int `json:"maxjobs"`
@@ -120,10 +128,12 @@ type Result struct {
 	Trace    []map[string]interface{} `json:"-"`
 	Notes    []string                 `json:"notes"`
 	// per-fork _invocation files of stages: how many were checked, which are wrong
-	PostChecked int      `json:"post_checked"`
-	PostBad     []string `json:"post_bad"`
-	InvChecked  int      `json:"inv_checked"`
-	InvBad      []string `json:"inv_bad"`
+	PostChecked   int      `json:"post_checked"`
+	PostBad       []string `json:"post_bad"`
+	InvChecked    int      `json:"inv_checked"`
+	InvBad        []string `json:"inv_bad"`
+	ScriptChecked int      `json:"script_checked"` // cluster mode: job scripts written by the remote job manager
+	ScriptBad     []string `json:"script_bad"`
 }
 
 type job struct {
@@ -412,7 +422,12 @@ func fileContent(key string) []byte {
 func (d *Driver) resolve(f FileRef) string {
 	d.fmu.Lock()
 	defer d.fmu.Unlock()
-	return d.filePath[f.Key()]
+	p := d.filePath[f.Key()]
+	if d.spec.DirSlash && p != "" && strings.HasSuffix(f.Name, ".d") {
+		// a stage that reports its directory outputs with a trailing slash
+		return p + "/"
+	}
+	return p
 }
 
 // checkFiles: which of the files named in v are missing or damaged.
@@ -582,6 +597,8 @@ func (d *Driver) writeFiles(j *job, outs interface{}) interface{} {
 }
 
 func writeFile(p string, b []byte) error { return os.WriteFile(p, b, 0644) }
+
+func relFileContent(rel string) string { return "input file given as " + rel + "\n" }
 
 var deadPidOnce sync.Once
 var deadPidVal int
@@ -899,10 +916,29 @@ func Run(spec *Spec, workdir string) (res *Result) {
 		os.Symlink("real", path.Join(root, "link"))
 		d.psdir = path.Join(root, "link", "ps")
 	}
+	if len(spec.RelFiles) > 0 {
+		// (runs of one harness process are sequential: the working directory is ours)
+		cwd, _ := os.Getwd()
+		os.Chdir(root)
+		defer os.Chdir(cwd)
+		for _, rel := range spec.RelFiles {
+			os.MkdirAll(path.Dir(path.Join(root, rel)), 0755)
+			writeFile(path.Join(root, rel), []byte(relFileContent(rel)))
+		}
+	}
 	mroPath := path.Join(root, "mro")
 	os.MkdirAll(mroPath, 0755)
 	srcPath := path.Join(mroPath, "p.mro")
-	writeFile(srcPath, []byte(spec.Mro))
+	invSrc := spec.Mro
+	if i := strings.Index(spec.Mro, "\npipeline "); spec.Layout == "subdir" && i >= 0 {
+		os.MkdirAll(path.Join(mroPath, "pipes"), 0755)
+		writeFile(path.Join(mroPath, "pipes", "_stages.mro"), []byte(spec.Mro[:i+1]))
+		invSrc = "@include \"_stages.mro\"\n" + spec.Mro[i:]
+		srcPath = path.Join(mroPath, "pipes", "main.mro")
+		writeFile(srcPath, []byte(invSrc))
+	} else {
+		writeFile(srcPath, []byte(spec.Mro))
+	}
 
 	opts := core.DefaultRuntimeOptions()
 	switch spec.Vdr {
@@ -931,7 +967,7 @@ func Run(spec *Spec, workdir string) (res *Result) {
 	d.rt = rt
 	core.VerifHook = d.hook
 	d.tr.Emit("RunBegin", "name", spec.Name)
-	ps, err := rt.InvokePipeline(spec.Mro, srcPath, d.psid, d.psdir, []string{mroPath}, "v", map[string]string{}, nil)
+	ps, err := rt.InvokePipeline(invSrc, srcPath, d.psid, d.psdir, []string{mroPath}, "v", map[string]string{}, nil)
 	if err != nil {
 		res.Error = "invoke: " + err.Error()
 		return
@@ -1013,7 +1049,8 @@ func Run(spec *Spec, workdir string) (res *Result) {
 func (d *Driver) loop(ctx context.Context) {
 	maxIter := d.spec.MaxIter
 	if maxIter == 0 {
-		maxIter = 400
+		// (a loop iteration moves at least one job one step unless the schedule idles)
+		maxIter = 400 + 12*len(d.spec.Invs)
 	}
 	sc := d.spec.Sched
 	penv := sc.PEnv
@@ -1160,6 +1197,15 @@ func (d *Driver) finalSweep(ctx context.Context) {
 	d.tr.Emit("VdrSweepDone")
 	d.ps.PostProcess()
 	d.checkPost()
+	for name, rel := range d.spec.RelFiles {
+		d.res.PostChecked++
+		want := relFileContent(rel)
+		if b, err := os.ReadFile(path.Join(d.psdir, "outs", name)); err != nil {
+			d.res.PostBad = append(d.res.PostBad, "."+name+": the file given as "+rel+" (relative to the working directory) is not available under outs/"+name+": "+err.Error())
+		} else if string(b) != want {
+			d.res.PostBad = append(d.res.PostBad, "."+name+": outs/"+name+" does not hold the content of "+rel)
+		}
+	}
 	d.fmu.Lock()
 	defer d.fmu.Unlock()
 	var present, damaged, gone []string
@@ -1362,7 +1408,11 @@ func (d *Driver) checkInvocations() {
 	}
 	defer os.RemoveAll(defsDir)
 	writeFile(path.Join(defsDir, "p.mro"), []byte(defs))
-	mroPath = defsDir
+	if d.spec.Layout != "subdir" {
+		mroPath = defsDir
+	}
+	// (with the sub-directory layout the stages are in a file of their own: the recorded
+	// invocation must compile under the pipestance's own MROPATH)
 	for _, f := range d.ps.VerifForks() {
 		b, err := os.ReadFile(path.Join(f.Path, "_invocation"))
 		if err != nil {
@@ -1427,6 +1477,40 @@ func (d *Driver) calleeOf(callPath []string) string {
 	return ""
 }
 
+// checkJobScripts: in cluster mode every submitted job has its script next to its
+// metadata; the script of a job must name that job's own directories (working
+// directory, stdout, stderr, the metadata path handed to the command) and nobody else's
+// - jobs are rendered concurrently when --maxjobs is set.
+func (d *Driver) checkJobScripts() {
+	var scripts []string
+	filepath.Walk(d.psdir, func(p string, info os.FileInfo, err error) error {
+		if err == nil && !info.IsDir() && info.Name() == "_jobscript" {
+			scripts = append(scripts, p)
+		}
+		return nil
+	})
+	for _, sp := range scripts {
+		b, err := os.ReadFile(sp)
+		if err != nil {
+			continue
+		}
+		d.res.ScriptChecked++
+		md := path.Dir(sp)
+		text := string(b)
+		for _, want := range []string{"> \"" + md + "/_stdout\"", "2> \"" + md + "/_stderr\"", "cd \"" + md + "/files\"", "\"" + md + "\" \\"} {
+			if !strings.Contains(text, want) && len(d.res.ScriptBad) < 10 {
+				d.res.ScriptBad = append(d.res.ScriptBad, d.rel(sp)+": does not contain its own "+strings.TrimSpace(strings.TrimPrefix(want, "2"))+" | "+strings.ReplaceAll(text, "\n", " ; "))
+				break
+			}
+		}
+		for _, other := range scripts {
+			if other != sp && strings.Contains(text, path.Dir(other)+"/_stdout") && len(d.res.ScriptBad) < 10 {
+				d.res.ScriptBad = append(d.res.ScriptBad, d.rel(sp)+": writes to the stdout of another job, "+d.rel(path.Dir(other)))
+			}
+		}
+	}
+}
+
 func (d *Driver) finish(ctx context.Context) {
 	defer d.openGates()
 	res := d.res
@@ -1435,6 +1519,9 @@ func (d *Driver) finish(ctx context.Context) {
 		res.FatalFq, res.FatalLog = fq, log
 	}
 	d.tr.Emit("RunEnd", "state", res.State, "stuck", res.Stuck, "fatal", res.FatalFq)
+	if d.spec.MaxJobs > 0 {
+		d.checkJobScripts()
+	}
 	// unknown jobs
 	for _, j := range d.jobs {
 		if j.inv == nil {
